@@ -21,12 +21,12 @@ CHECKS = {
 CHECKS["C06"] = dict(
    technique="Lean 4 proofs (partition/permutation theorems for all view counts and subset numbers), differential correspondence on the real symmetry/subset/schedule code",
    text="Proof: the related-viewgram sets of the basic view/segment pairs partition all pairs, the processed sets of the subsets are duplicate-free and partition the data "
-        "(count = 1 for every (segment, view) and TOF loop multiplicity), the balance flag is true iff all subsets process equally many viewgrams, and both subset schedules "
-        "(fixed order with any start subset; randomised order for any random draws) are permutations of the subsets — all proved in Lean for every number of views, subsets and "
+        "(count = 1 for every (segment, view) and TOF loop multiplicity), the balance flag is true iff all subsets process equally many viewgrams, both subset schedules "
+        "(fixed order with any start subset; randomised order for any random draws) are permutations of the subsets, the projector loops touch every (view, segment, TOF bin) exactly once over all subsets, and every full iteration of a reconstruct run from ANY start sub-iteration (fixed or randomised order, any draws) uses each subset exactly once, all schedule entries are valid and the rest of a partial first iteration uses distinct subsets — all proved in Lean for every number of views, subsets and "
         "segment range under the flag constraints the constructor establishes (also a theorem). Tie: the real DataSymmetriesForBins_PET_CartesianGrid, "
-        "detail::find_basic_vs_nums_in_subset, subsets_are_approximately_balanced and IterativeReconstruction::get_subset_num (rand() scripted) are run on generated geometries "
-        "and every answer is compared with the model; an oracle counts multiplicities on the implementation.",
-   note=TB + "rand() is a parameter; views are 0..V-1; only the PET_CartesianGrid symmetry class (the one the projectors use) is modelled.",
+        "detail::find_basic_vs_nums_in_subset, subsets_are_approximately_balanced (before and after set_up, TOF and default max segment), TrivialDataSymmetriesForBins, IterativeReconstruction::get_subset_num (rand() scripted), the real OSMAPOSL set_up/reconstruct loop seen through a recording objective function (random start sub-iteration/subset, randomised order, malformed parameters) and the real back_project/forward_project(ProjData, subset, n) loops seen through a recording ProjData are run on generated geometries "
+        "and every answer is compared with the model; oracles count multiplicities and compare per-subset sums with whole-data projections on the implementation. A crash of the randomised schedule on restart inside an iteration found this way was repaired in /repo.",
+   note=TB + "rand() is a parameter; views are 0..V-1; PET_CartesianGrid and Trivial symmetry classes; projector loops observed for the matrix projectors in the serial build only; OSSPS's own loop, FBP2D's use of subsets and the keyword parsing path are not covered.",
    design="DESIGN.md §4 C06")
 CHECKS["C01"] = dict(
    technique="Lean 4 proofs (interleaving round trips, ring-pair partition, bin/detector-pair exactness with mashing), differential correspondence + partition oracle on the real ProjDataInfo classes",
@@ -56,10 +56,10 @@ CHECKS["C02"] = dict(
    text="Proof: for every geometry (unequal axial sizes, any view/tangential/TOF ranges), both storage orders, every permutation of the segment sequence, element size and stream offset the model of "
         "get_offset/get_index is injective on in-range bins and lands inside the store; every access path (bin, viewgram, sinogram, segment by view/by sinogram incl. conversion, related viewgrams, fill) "
         "touches exactly the addresses of its bins, contiguously where the code issues one read/write; after ANY history of writes through any paths the store equals the abstract array "
-        "(last write wins, untouched bins keep their value) and reading through any path returns it; out-of-range requests are errors given the range checks the implementation is observed to have. "
-        "Tie: random interleaved histories on the real ProjDataFromStream (stringstream and file), ProjDataInterfile and ProjDataInMemory; per write the changed byte slots, per read the values, are "
-        "compared with the model for equality; a reference-map oracle, a second independent reader (visibility before the harness flushes) and a header round trip run on the implementation.",
-   note=TB + "values are small integers so every on-disk type is exact; byte encoding decoded by the harness, not modelled; fstream buffering/OS cache are runtime (model records only where flush() is issued); Interfile header text is correspondence-only.",
+        "(last write wins, untouched bins keep their value) and reading through any path returns it; out-of-range requests (every coordinate of every single-bin and container accessor, oversized segment containers included) are errors given the range checks the implementation is observed to have; copies into memory, get_subset and the bulk-arithmetic pass touch exactly the addresses of their bins and refine the abstract array; values that are multiples of the stream's scale factor round-trip exactly through scaled integer storage. "
+        "Tie: random interleaved histories on the real ProjDataFromStream (stringstream and file), ProjDataInterfile and ProjDataInMemory (both storage orders, segment permutations, four on-disk types, both byte orders, offsets, scale factors 1, 1/2, 3, TOF, arc-corrected, trimmed ranges, bulk arithmetic sapyb/xapyb/axpby/+= ..., get_subset, copies from differently laid-out and wider sources, make-odd reads); per write the changed byte slots, per read the values, are "
+        "compared with the model for equality; a reference-map oracle, a second independent reader (visibility before the harness flushes) and header round trips (ProjDataInterfile and write_basic_interfile_PDFS_header at non-zero data offsets, 1-3 time frames, arc-corrected or not, scale factor) run on the implementation. Five defects found this way were repaired in /repo.",
+   note=TB + "values are small multiples of the scale factor so every on-disk type is exact; float on disk with scale != 1, data that do not fit the on-disk type, SPECT/Siemens/ECAT/GE headers and several energy windows are not covered; byte encoding decoded by the harness, not modelled; fstream buffering/OS cache are runtime (model records only where flush() is issued); Interfile header text is correspondence-only.",
    design="DESIGN.md §4 C02")
 CHECKS["C04"] = dict(
    technique="Lean 4 proofs over an arbitrary commutative ring and arbitrary sparse rows (linearity, adjointness, additivity, frame conditions, branch agreement), exact-Rat differential correspondence on the real projector pair",
